@@ -20,9 +20,14 @@ EXTENDS Naturals, Sequences, FiniteSets
 (* ------------------------------ 1. names ------------------------------ *)
 Encodings == {"identity", "gzip", "br", "zstd", "deflate", "snappy"}
 
-\* conformancev1.Compression numbers (config.proto); 0 = UNSPECIFIED is read as identity
+\* conformancev1.Compression numbers (config.proto)
 EnumOf == [identity |-> 1, gzip |-> 2, br |-> 3, zstd |-> 4, deflate |-> 5, snappy |-> 6]
-NameOfEnum(e) == IF e = 0 THEN "identity" ELSE CHOOSE n \in Encodings : EnumOf[n] = e
+\* the statement is silent on COMPRESSION_UNSPECIFIED; the factories and the raw encoder read it as
+\* identity on purpose ("case UNSPECIFIED, IDENTITY"), the docs say identity is assumed when nothing
+\* is configured
+AsImplemented_UnspecifiedIsIdentity == 0
+NameOfEnum(e) == IF e = AsImplemented_UnspecifiedIsIdentity THEN "identity"
+                 ELSE CHOOSE n \in Encodings : EnumOf[n] = e
 
 \* the wire format a name denotes.  "deflate" is RFC 1950 (zlib-wrapped), NOT raw RFC 1951
 \* (deflate.go: "HTTP deflate is actually RFC 1950 with zlib headers"); "snappy" is the framed
